@@ -76,6 +76,9 @@ func (e *Engine) callStatic(fr *Frame, s *State, f *ssa.Function, args []Value, 
 		if f.Name() == "init" && f.Pkg != nil {
 			return nil // initialisation of foreign packages is not modelled
 		}
+		if inlineForeign[name] {
+			return e.callFunction(s, f, args, nil)
+		}
 		if f.Pkg == nil && f.Synthetic != "" {
 			// wrapper/thunk/bound method: inline
 			return e.callFunction(s, f, args, nil)
@@ -262,6 +265,11 @@ func (e *Engine) doCopy(fr *Frame, s *State, dv, sv Value, pos string) Value {
 type stdHandler func(e *Engine, fr *Frame, s *State, args []Value, pos string) Value
 
 var stdIntrinsics map[string]stdHandler
+
+// tiny foreign functions that are inlined from their real SSA
+var inlineForeign = map[string]bool{
+	"(crypto.Hash).HashFunc": true,
+}
 
 type stubHandler func(e *Engine, fr *Frame, s *State, recv *Iface, args []Value, pos string) Value
 
